@@ -119,7 +119,7 @@ fn spec_interleave(s: &[u8; 32]) -> [u8; 40] {
 
 /// C01/C03: client K == SHA_Interleave(pad32((B - 3*g^x)^(a + u*x) mod N')) for every non-zero S.
 #[kani::proof]
-#[kani::unwind(200)]
+#[kani::unwind(66)]
 #[kani::stub(core::str::from_utf8, verif_oracle::from_utf8_model)]
 #[kani::stub(crate::srp_internal_client::calculate_client_public_key, stub_client_public_key)]
 #[kani::stub(crate::srp_internal::calculate_x, stub_x)]
